@@ -54,6 +54,9 @@ type partMon struct {
 	prepVal  map[uint64]map[uint64]*gpbft.ECChain
 	prepTime map[uint64]map[uint64]time.Time
 	ownConv  map[uint64]map[uint64]*gpbft.ECChain
+	// messages waiting for an instance the participant has not begun: the participant's queue keeps one message
+	// per (instance, sender, round, step) — the first — and judges it (base, supplemental data) when it begins
+	queued map[string]bool
 }
 
 type monitors struct {
@@ -69,7 +72,7 @@ func newMonitors(s *System) *monitors {
 	m := &monitors{s: s, parts: map[int]*partMon{}, proposals: map[uint64][]*gpbft.ECChain{}, pt: s.w.newPowerTable()}
 	for _, i := range s.w.sc.Honest() {
 		m.parts[i] = &partMon{sentSlot: map[gpbft.Instant]bool{}, tally: map[uint64]*refTally{},
-			prepVal: map[uint64]map[uint64]*gpbft.ECChain{}, prepTime: map[uint64]map[uint64]time.Time{}, ownConv: map[uint64]map[uint64]*gpbft.ECChain{}}
+			prepVal: map[uint64]map[uint64]*gpbft.ECChain{}, prepTime: map[uint64]map[uint64]time.Time{}, ownConv: map[uint64]map[uint64]*gpbft.ECChain{}, queued: map[string]bool{}}
 	}
 	return m
 }
@@ -168,6 +171,15 @@ func (m *monitors) onAccepted(to int, rec *msgRec, before gpbft.InstanceProgress
 	msg := rec.msg
 	if msg.Vote.Instance < before.ID {
 		return // dropped by the participant as old
+	}
+	if m.s.hosts[to].bases[msg.Vote.Instance] == nil {
+		// not begun yet: queued; a second message of the same sender for the same round and step is dropped by the
+		// queue, whatever becomes of the first when the instance begins
+		k := fmt.Sprintf("%d.%d.%d.%d", msg.Vote.Instance, msg.Sender, msg.Vote.Round, msg.Vote.Phase)
+		if pm.queued[k] {
+			return
+		}
+		pm.queued[k] = true
 	}
 	// Messages with foreign base / supplemental data are dropped before touching state.
 	if base := m.baseOf(to, msg.Vote.Instance); base != nil && !msg.Vote.Value.IsZero() && !msg.Vote.Value.HasBase(base) {
@@ -555,7 +567,16 @@ func (m *monitors) key(w io.Writer) {
 				sort.Strings(parts)
 				fmt.Fprintf(w, "%d:%s;", k, strings.Join(parts, ","))
 			}
-			fmt.Fprint(w, "]")
+			var qs []string
+			for q := range pm.queued {
+				var inst uint64
+				fmt.Sscanf(q, "%d.", &inst)
+				if m.s.hosts[i].bases[inst] == nil {
+					qs = append(qs, q)
+				}
+			}
+			sort.Strings(qs)
+			fmt.Fprintf(w, "q%s]", strings.Join(qs, ","))
 		}
 	}
 }
